@@ -544,7 +544,8 @@ class World(EventDispatcher):
         """
         self._clear_dead_entities()
 
-        for processor in self._sorted_processors:
+        # Iterate on a copy, processors may add other processors meanwhile
+        for processor in tuple(self._sorted_processors):
             processor.process(dt)
 
     def clear(self):
